@@ -171,6 +171,11 @@ def _coarsen(R, unit, tier, only):
                 out = scratch.fresh()
                 try:
                     try:
+                        if kk % 2 == 0 and n >= 2:
+                            # every other case: the output path already holds the result of ANOTHER coarsening (factor n: one bin per
+                            # chromosome at most) of the same source
+                            R.cls("coarsen:output-path-already-holds-a-cooler")
+                            cooler.coarsen_cooler(uri, out, n, chunksize=10 ** 6)
                         cooler.coarsen_cooler(uri, out, k, chunksize=cs, columns=list(cols), agg=dict(agg) if agg else None)
                     except Exception as e:
                         R.mismatch("coarsen-raises:" + type(e).__name__, inner, f"{e!s:.300} bins={bins}")
